@@ -376,7 +376,7 @@ func runC16(rc *RunCtx) {
 		case op == 11: // issuer add/remove: replace an issuer by an equivalent one (same key and subject)
 			oi := tp.Pick(len(issuers))
 			oldIs := issuers[oi]
-			variant := []string{"reissue-same-key", "delete-and-reimport"}[tp.Pick(2)]
+			variant := []string{"reissue-same-key", "delete-and-reimport", "add-equivalent-keep-old"}[tp.Pick(3)]
 			info, err := h.RootRead("pki/issuer/" + oldIs.ref)
 			if err != nil || info == nil {
 				note("issuer read -> %v", err)
@@ -396,6 +396,30 @@ func runC16(rc *RunCtx) {
 			}
 			var newCert *x509.Certificate
 			switch variant {
+			case "add-equivalent-keep-old":
+				// a second issuer with the same key and subject joins the first one
+				// (they share one CRL) and becomes the default; the CRL served for
+				// the OLD issuer must keep its number sequence
+				if cur, err := h.RootRead("pki/config/issuers"); err == nil && cur != nil {
+					h.RootWrite("pki/config/issuers", map[string]any{"default": cur.Data["default"], "default_follows_latest_issuer": true})
+				}
+				resp, err := h.RootWrite("pki/issuers/generate/root/existing", map[string]any{"common_name": oldIs.cert.Subject.CommonName, "key_ref": keyID, "issuer_name": newRef, "ttl": "87000h"})
+				if err != nil || resp == nil {
+					note("add equivalent issuer -> %v", err)
+					continue
+				}
+				nc := parseCertPEM(fmt.Sprint(resp.Data["certificate"]))
+				if nc == nil {
+					continue
+				}
+				issuers = append(issuers, &pkiIssuer{ref: newRef, cert: nc})
+				note("issuer %s joined by equivalent %s (default follows latest)", oldIs.ref, newRef)
+				s.Probe("equivalent_issuer_added")
+				h.Do("rot", Req{Op: logical.ReadOperation, Path: "pki/crl/rotate", Token: h.Root})
+				if !checkAll(h, "after-equivalent-issuer", !autoRebuild) {
+					return
+				}
+				continue
 			case "reissue-same-key":
 				resp, err := h.RootWrite("pki/issuers/generate/root/existing", map[string]any{"common_name": oldIs.cert.Subject.CommonName, "key_ref": keyID, "issuer_name": newRef, "ttl": "87000h"})
 				if err != nil || resp == nil {
